@@ -49,7 +49,7 @@ pub fn def() -> CheckDef {
     }
 }
 
-const PROP_NAMES: [&str; 22] = ["a", "EXa", "AUx", "A", "E", "E_", "3x", "V1", "1a", "12", "_", "true1", "in", "é", "٣", "p_1", "TRUE", "FALSE", "tRuE", "AXIN2", "AGO1", "Cdc13"];
+const PROP_NAMES: [&str; 26] = ["V_a", "3_5_x", "V_ATPase", "3_", "a", "EXa", "AUx", "A", "E", "E_", "3x", "V1", "1a", "12", "_", "true1", "in", "é", "٣", "p_1", "TRUE", "FALSE", "tRuE", "AXIN2", "AGO1", "Cdc13"];
 const VAR_NAMES: [&str; 10] = ["x", "xx", "y", "EX", "3", "V", "x_1", "true", "٣", "AU"];
 const LABELS: [&str; 5] = ["d", "w", "EX", "1", "d_2"];
 
